@@ -239,7 +239,9 @@ Section Writer.
   Lemma append_nopad : forall f rollover st buf,
     wf_w st -> buf <> [] ->
     HEADER_MAX_SIZE < nb (w_bw st) - w_bw st ->
-    (exists st', append_ bits crc (S f) rollover st buf = (WErr ETableFull, st') /\ st' = st) \/
+    (exists st', append_ bits crc (S f) rollover st buf = (WErr ETableFull, st') /\ st' = st /\
+                 (TABLE_FULL_SIZE <= w_bw st + len (frame HEADER_WHOLE buf) \/
+                  rollover < w_bw st + len (frame HEADER_WHOLE buf))) \/
     (exists c st', append_ bits crc (S f) rollover st buf = (WOk, st') /\ main_at (w_bw st) buf c /\
                    w_file st' = w_file st ++ c /\ wf_w st' /\ len buf < TABLE_FULL_SIZE).
   Proof.
@@ -249,9 +251,9 @@ Section Writer.
     set (p := w_bw st) in *.
     set (new_offset := p + (len (header_frame (hdr HEADER_WHOLE buf)) + len buf)).
     destruct (N.leb_spec TABLE_FULL_SIZE new_offset) as [Hc1|Hc1].
-    { left. eexists. split; reflexivity. }
+    { left. eexists. split; [reflexivity|]. split; [reflexivity|]. left. rewrite frame_len. exact Hc1. }
     destruct (N.ltb_spec rollover new_offset) as [Hc2|Hc2].
-    { left. eexists. split; reflexivity. }
+    { left. eexists. split; [reflexivity|]. split; [reflexivity|]. right. rewrite frame_len. exact Hc2. }
     assert (Hlen : len buf < TABLE_FULL_SIZE) by (unfold new_offset in Hc1; lia).
     assert (Hlen64 : len buf < W64) by (pose proof tfs_lt; lia).
     right.
@@ -298,32 +300,37 @@ Section Writer.
     | WOk => buf <> [] /\ len buf < TABLE_FULL_SIZE /\
              exists k c, pad_at (w_bw st) k /\ main_at (w_bw st + k) buf c /\
                          w_file st' = w_file st ++ zeros k ++ c
-    | WErr e => exists k, pad_at (w_bw st) k /\ w_file st' = w_file st ++ zeros k
+    | WErr e => exists k, pad_at (w_bw st) k /\ w_file st' = w_file st ++ zeros k /\
+                (buf = [] \/ TABLE_FULL_SIZE <= w_bw st + k + len (frame HEADER_WHOLE buf) \/
+                 rollover < w_bw st + k + len (frame HEADER_WHOLE buf))
     | WPanic | WFuel => False
     end.
   Proof.
     intros rollover st buf r st' Hwf H.
     destruct disc_small as (HdW & HdF & HdS).
     unfold append in H. destruct buf as [|b0 buf'].
-    { inversion H; subst. split; [exact Hwf|]. exists 0. split; [now left|]. now rewrite zeros_0, app_nil_r. }
+    { inversion H; subst. split; [exact Hwf|]. exists 0. split; [now left|]. split; [now rewrite zeros_0, app_nil_r|now left]. }
     set (buf := b0 :: buf') in *.
     assert (Hne : buf <> []) by discriminate.
     unfold APPEND_FUEL in H.
     set (p := w_bw st) in *.
     destruct (N.ltb_spec HEADER_MAX_SIZE (nb p - p)) as [Hround|Hround].
     - (* no padding can be needed *)
-      destruct (append_nopad 2 rollover st buf Hwf Hne Hround) as [(s & E & ->)|(c & s & E & Hm & Hf & Hw & Hl)];
+      destruct (append_nopad 2 rollover st buf Hwf Hne Hround) as [(s & E & -> & Hcond)|(c & s & E & Hm & Hf & Hw & Hl)];
         rewrite E in H; inversion H; subst.
-      + split; [exact Hwf|]. exists 0. split; [now left|]. now rewrite zeros_0, app_nil_r.
+      + split; [exact Hwf|]. exists 0. split; [now left|]. split; [now rewrite zeros_0, app_nil_r|].
+        right. rewrite N.add_0_r. exact Hcond.
       + split; [exact Hw|]. split; [exact Hne|]. split; [exact Hl|].
         exists 0, c. split; [now left|]. rewrite N.add_0_r. split; [exact Hm|]. rewrite zeros_0. exact Hf.
     - (* at most HEADER_MAX_SIZE bytes remain before the boundary *)
       rewrite append_S in H. cbv zeta in H. fold (hdr HEADER_WHOLE buf) in H. fold p in H.
       set (new_offset := p + (len (header_frame (hdr HEADER_WHOLE buf)) + len buf)) in *.
       destruct (N.leb_spec TABLE_FULL_SIZE new_offset) as [Hc1|Hc1].
-      { inversion H; subst. split; [exact Hwf|]. exists 0. split; [now left|]. now rewrite zeros_0, app_nil_r. }
+      { inversion H; subst. split; [exact Hwf|]. exists 0. split; [now left|]. split; [now rewrite zeros_0, app_nil_r|].
+        right. left. rewrite N.add_0_r, frame_len. exact Hc1. }
       destruct (N.ltb_spec rollover new_offset) as [Hc2|Hc2].
-      { inversion H; subst. split; [exact Hwf|]. exists 0. split; [now left|]. now rewrite zeros_0, app_nil_r. }
+      { inversion H; subst. split; [exact Hwf|]. exists 0. split; [now left|]. split; [now rewrite zeros_0, app_nil_r|].
+        right. right. rewrite N.add_0_r, frame_len. exact Hc2. }
       assert (Hlen : len buf < TABLE_FULL_SIZE) by (unfold new_offset in Hc1; lia).
       assert (Hlen64 : len buf < W64) by (pose proof tfs_lt; lia).
       pose proof (nb_gt bits p) as Hgt.
@@ -344,9 +351,10 @@ Section Writer.
         assert (Hpad : pad_at p k) by (right; unfold k; lia).
         assert (Hround1 : HEADER_MAX_SIZE < nb (w_bw st1) - w_bw st1).
         { rewrite Hbw1. rewrite (nb_of_multiple bits (nb p) (nb_mod bits p)). lia. }
-        destruct (append_nopad 1 rollover st1 buf Hwf1 Hne Hround1) as [(s & E & ->)|(c & s & E & Hm & Hf & Hw & Hl)];
+        destruct (append_nopad 1 rollover st1 buf Hwf1 Hne Hround1) as [(s & E & -> & Hcond)|(c & s & E & Hm & Hf & Hw & Hl)];
           rewrite E in H; inversion H; subst.
-        * split; [exact Hwf1|]. exists k. split; [exact Hpad|exact Hf1].
+        * split; [exact Hwf1|]. exists k. split; [exact Hpad|]. split; [exact Hf1|].
+          right. rewrite Hbw1 in Hcond. replace (p + k) with (nb p) by (unfold k; lia). exact Hcond.
         * split; [exact Hw|]. split; [exact Hne|]. split; [exact Hl|].
           exists k, c. split; [exact Hpad|]. split.
           -- rewrite Hbw1 in Hm. replace (p + k) with (nb p) by (unfold k; lia). exact Hm.
@@ -363,5 +371,21 @@ Section Writer.
         exists 0, (frame HEADER_WHOLE buf). split; [now left|]. split.
         * rewrite N.add_0_r. apply MWhole. rewrite frame_len. unfold new_offset in Hc3. fold p. lia.
         * unfold st2. rewrite !w_file_write, zeros_0. unfold frame. cbn [app]. now rewrite <- app_assoc.
+  Qed.
+  (* no spurious failure: with room below both limits a non-empty batch is appended *)
+  Theorem append_ok_when_room : forall rollover st buf r st',
+    wf_w st -> buf <> [] ->
+    w_bw st + 2 * HEADER_MAX_SIZE + len buf < TABLE_FULL_SIZE ->
+    w_bw st + 2 * HEADER_MAX_SIZE + len buf <= rollover ->
+    append bits crc rollover st buf = (r, st') -> r = WOk.
+  Proof.
+    intros rollover st buf r st' Hwf Hne Hroom1 Hroom2 H.
+    destruct (append_spec rollover st buf r st' Hwf H) as [_ Hr].
+    destruct r; try contradiction; [reflexivity|].
+    exfalso. destruct Hr as (k & Hpad & _ & [Hc|Hc]); [contradiction|].
+    assert (Hk : k <= HEADER_MAX_SIZE) by (destruct Hpad as [->|[Hk _]]; unfold HEADER_MAX_SIZE; lia).
+    assert (Hl64 : len buf < W64) by (pose proof tfs_lt; lia).
+    pose proof (header_frame_len_bound _ (hdr_ok HEADER_WHOLE buf (proj1 disc_small) Hl64)) as HL.
+    rewrite frame_len in Hc. lia.
   Qed.
 End Writer.
